@@ -258,7 +258,7 @@ class Renderer(object):
         if e == "dcall":
             call = "%s(%s)" % (x["op"], ", ".join(self.ex(a) for a in x["args"]))
             d = x["dom"]
-            if d["d"] == "self":
+            if d["d"] == "self" or x.get("unqual"):
                 return call
             return "(%s$%s)" % (call, self.domx(d))
         if e == "mac":
@@ -412,6 +412,8 @@ class Renderer(object):
         for m in p.get("macs", []):
             out.append("%s(%s) ==> %s;" % (m["name"], ", ".join(m["ps"]), self.ex(m["body"])))
         out += self.domain_decls()
+        if p.get("dimports"):       # domains whose exports are used unqualified
+            out.append("import from %s;" % ", ".join(p["doms"][k - 1]["name"] for k in p["dimports"]))
         payload = dict((d_["exn"], d_["t"]) for d_ in p.get("exnp", []))
         for ex in p.get("exns", []):
             if ex in payload:
@@ -441,7 +443,7 @@ class Renderer(object):
                 texts.append(("f", i, "%s(%s): %s == { %s%s }" % (self.nm(f.get("oname", f["name"])), ps, tname(f["rt"]),
                                                                   self.free_decl(f["body"], f["ps"]), self.body_items(f["body"]))))
             elif f["d"] == "var":
-                texts.append(("t", i, "%s: %s := %s;" % (self.nm(f["x"]), tname(f["t"]), self.ex(f["init"]))))
+                texts.append(("t", i, "%s: %s %s %s;" % (self.nm(f["x"]), tname(f["t"]), "==" if f.get("const") else ":=", self.ex(f["init"]))))
             else:
                 texts.append(("t", i, self.ex(f["x"]) + ";"))
         return out, texts
